@@ -148,6 +148,11 @@ func tf(b bool) string {
 func init() {
 	moreOps["PARSE"] = func(c Case) string {
 		src := unhex(c.Fields[0])
+		// the same text at another offset first (a cache keyed by text would now hold stale positions)
+		if len(src) <= 4096 {
+			parser.Parse(" " + src)
+			parser.Parse("T;\n" + src)
+		}
 		first := fmtParse(parser.Parse(src))
 		// history: Parse is a function of its argument; parse related sources (a prefix, an
 		// extension, a failing and a succeeding one) in between and ask again
@@ -162,6 +167,40 @@ func init() {
 		return first
 	}
 	moreOps["PARSEV"] = moreOps["PARSE"]
+}
+
+func stmtKinds(stmts []parser.Statement, err error) string {
+	k := ""
+	for _, st := range stmts {
+		switch st.(type) {
+		case *parser.LetStatement:
+			k += "L"
+		case *parser.TabularExpr:
+			k += "T"
+		default:
+			k += "?"
+		}
+	}
+	if k == "" {
+		k = "-"
+	}
+	if err != nil {
+		return k + " e"
+	}
+	return k + " o"
+}
+
+func init() {
+	// PIECES src | kinds(whole) e|o ;; kinds(piece 1) e|o ;; …   (L let, T tabular; e = Parse returned an error)
+	// Parse of the whole source next to Parse of every piece of SplitStatements (C15)
+	moreOps["PIECES"] = func(c Case) string {
+		src := unhex(c.Fields[0])
+		parts := []string{stmtKinds(parser.Parse(src))}
+		for _, p := range parser.SplitStatements(src) {
+			parts = append(parts, stmtKinds(parser.Parse(p)))
+		}
+		return strings.Join(parts, " ;; ")
+	}
 }
 
 func init() {
